@@ -310,7 +310,9 @@ func optsFilter(tier string) mck.Space {
 			}
 			want = append(want, uint32(v))
 		}
-		desc := func() interface{} { return map[string]interface{}{"list": l, "source": []string{"cmd", "file", "file+cmd"}[d[1]]} }
+		desc := func() interface{} {
+			return map[string]interface{}{"list": l, "source": []string{"cmd", "file", "file+cmd"}[d[1]]}
+		}
 		c.SetCase(desc)
 		c.Nontrivial(mck.HashStr(strings.Join(l, ","), fmt.Sprint(d[1])))
 		switch d[1] {
